@@ -12,11 +12,11 @@ from .guards import conditions, normalize_bool_cond, outcomes, cond_variants
 from .facts import callee_path
 from . import codec
 
-NEXT = "core::iter::Iterator::next"
-INTO_ITER = "core::iter::IntoIterator::into_iter"
-SET_NEW = "alloc::collections::BTreeSet::<T>::new"
-SET_CONTAINS = "alloc::collections::BTreeSet::<T, A>::contains"
-SET_INSERT = "alloc::collections::BTreeSet::<T, A>::insert"
+NEXT = "core::iter::traits::iterator::Iterator::next"
+INTO_ITER = "core::iter::traits::collect::IntoIterator::into_iter"
+SET_NEW = "alloc::collections::btree::set::BTreeSet::<T>::new"
+SET_CONTAINS = "alloc::collections::btree::set::BTreeSet::<T, A>::contains"
+SET_INSERT = "alloc::collections::btree::set::BTreeSet::<T, A>::insert"
 CLONE = "core::clone::Clone::clone"
 
 
